@@ -254,6 +254,9 @@ class TypedNode(Node):
         if kind is None:
             kind = self._tree.DEFAULT_CHILD_TYPE
 
+        if before is False:
+            before = None  # append (`False` is an int, but does not mean index 0)
+
         if isinstance(child, (Node, Tree)) and not isinstance(
             child, (TypedNode, TypedTree)
         ):
